@@ -14,6 +14,14 @@ tables column_names / len / row iteration) and compares it with the snapshot tak
     reported under a separate key class).
 
 The oracle is the frame rule above (who may change), not serif code.
+
+Sizes: the same histories are also run on roots of length 1 and 0 (size-dependent literals of the
+alphabet - masks, index lists, replacement columns - are scaled; `@TOKEN@` in a template).
+Identity: a derivation (anything but the live column handles t.a / t['a']) must hand back an object
+that IS NOT one of its operands and shares no column object with them (a sort that returns self for an
+already sorted / tiny input, a slice / mask / select that selects everything, `>> {}` ...): otherwise
+later writes through either handle cannot stay local.  A directed family (every derivation, then every
+core write / dict-`>>` through the result or an operand) confirms it by the frame rule.
 """
 import itertools
 
@@ -22,15 +30,41 @@ from harness import *  # noqa
 # --------------------------------------------------------------------------------------------
 # setups: how t0 is derived from the root vectors
 # --------------------------------------------------------------------------------------------
-ROOTS = "v0 = Vector([1, 2, 3], name='a'); v1 = Vector([4, 5, 6], name='b'); v2 = Vector([7, 8, 9], name='c')"
+ROOTS = "v0 = Vector(@C0@, name='a'); v1 = Vector(@C1@, name='b'); v2 = Vector(@COL@, name='c')"
 SETUPS = {
     'rshift':       "t0 = v0 >> v1",
     'ctor-list':    "t0 = Table([v0, v1])",
     'ctor-tuple':   "t0 = Table((v0, v1))",
     'vector-nested': "t0 = Vector([v0, v1])",
-    'dict-of-lists': "t0 = Table({'a': [1, 2, 3], 'b': [4, 5, 6]})",
+    'dict-of-lists': "t0 = Table({'a': @C0@, 'b': @C1@})",
 }
 SETUP_LABEL = {k: 'setup:' + k for k in SETUPS}
+SIZES = (3, 1, 0)
+
+
+def _tokens(n):
+    """Size-dependent literals (n = length of the roots); at n = 3 they are the literals of the original alphabet."""
+    k2 = min(2, n)
+    idx = sorted({0, n - 1}) if n else []
+    return {
+        '@C0@': lit([1, 2, 3][:n]), '@C1@': lit([4, 5, 6][:n]), '@COL@': lit([7, 8, 9][:n]),
+        '@COLBAD@': '[7, 8]',                                       # never the right length (n != 2)
+        '@MASK@': lit([True, False, True][:n]), '@MASKALL@': lit([True] * n),
+        '@IDX@': lit(idx), '@IDXV@': lit([70, 80][:len(idx)]),
+        '@S2@': lit([70, 80][:k2]),
+        '@SBAD@': '[1]' if n >= 2 else '[1, 1, 1]',
+        '@SMIX@': lit([1.5, 's'][-k2:]) if n else "[1.5, 's']",
+        '@REG@': "Table({'p': %s, 'q': %s})" % (lit([0, 0][:k2]), lit([1, 1][:k2])),
+        '@BADCOL@': '[1]' if n != 1 else '[1, 1]',
+        '@WBAD@': '{w}[0:2]' if n == 3 else '({w} << [9])',
+    }
+
+
+def _sized(src, n):
+    if '@' in src:
+        for k, v in _tokens(n).items():
+            src = src.replace(k, v)
+    return src
 
 # --------------------------------------------------------------------------------------------
 # alphabet.  (name, template, result kind | None, class)
@@ -43,8 +77,8 @@ V_DERIVE = [
     ('Vector.copy', '{x}.copy()', 'V', 1),
     ('Vector.getitem-slice', '{x}[0:2]', 'V', 1),
     ('Vector.getitem-slice-full', '{x}[:]', 'V', 0),
-    ('Vector.getitem-mask', '{x}[[True, False, True]]', 'V', 0),
-    ('Vector.getitem-index', '{x}[[0, 2]]', 'V', 0),
+    ('Vector.getitem-mask', '{x}[@MASK@]', 'V', 0),
+    ('Vector.getitem-index', '{x}[@IDX@]', 'V', 0),
     ('Vector.add-scalar', '{x} + 1', 'V', 0),
     ('Vector.add-vector', '{x} + {w}', 'V', 0),
     ('Vector.eq-scalar', '{x} == 2', 'V', 0),
@@ -55,11 +89,20 @@ V_DERIVE = [
     ('Vector.cast', '{x}.cast(float)', 'V', 0),
     ('Vector.fillna', '{x}.fillna(0)', 'V', 0),
     ('Vector.rshift-vector', '{x} >> {w}', 'T', 1),
-    ('Vector.rshift-list', '{x} >> [7, 8, 9]', 'T', 0),
-    ('Vector.rshift-list-short', '{x} >> [7, 8]', 'T', 0),      # unequal lengths: not a table
+    ('Vector.rshift-list', '{x} >> @COL@', 'T', 0),
+    ('Vector.rshift-list-short', '{x} >> @COLBAD@', 'T', 0),      # unequal lengths: not a table
     ('Table.ctor-list', 'Table([{x}, {w}])', 'T', 1),
     ('Table.ctor-dict-lists', "Table({{'p': list({x}), 'q': list({w})}})", 'T', 0),
     ('Vector.ctor-nested', 'Vector([{x}, {w}])', 'T', 0),
+    # derivations that could hand back the operand itself (nothing to do: already sorted, nothing dropped, ...)
+    ('Vector.sort_by-asc', '{x}.sort_by()', 'V', 0),
+    ('Vector.lshift-empty', '{x} << []', 'V', 0),
+    ('Vector.cast-same', '{x}.cast(int)', 'V', 0),
+    ('Vector.getitem-mask-all', '{x}[@MASKALL@]', 'V', 0),
+    ('Vector.getitem-slice-over', '{x}[0:100]', 'V', 0),
+    ('Vector.add-zero', '{x} + 0', 'V', 0),
+    ('Vector.pos', '+{x}', 'V', 0),
+    ('Vector.dropna', '{x}.dropna()', 'V', 0),
 ]
 V_READ = [
     ('Vector.repr', 'repr({x})'),
@@ -72,33 +115,33 @@ V_WRITE = [
     ('Vector.setitem-negint', '{x}[-1] = 100', 'setitem', 0),
     ('Vector.setitem-int-promote', '{x}[0] = 1.5', 'promote', 1),
     ('Vector.setitem-none', '{x}[0] = None', 'setitem', 0),
-    ('Vector.setitem-slice', '{x}[0:2] = [70, 80]', 'setitem', 0),
+    ('Vector.setitem-slice', '{x}[0:2] = @S2@', 'setitem', 0),
     ('Vector.setitem-slice-scalar', '{x}[1:] = 0', 'setitem', 0),
-    ('Vector.setitem-mask', '{x}[[True, False, True]] = 0', 'setitem', 0),
-    ('Vector.setitem-index-list', '{x}[[0, 2]] = [70, 80]', 'setitem', 0),
+    ('Vector.setitem-mask', '{x}[@MASK@] = 0', 'setitem', 0),
+    ('Vector.setitem-index-list', '{x}[@IDX@] = @IDXV@', 'setitem', 0),
     ('Vector.setitem-slice-vector', '{x}[0:3] = {w}', 'setitem', 0),
     ('Vector.name-set', "{x}.name = 'z'", 'rename', 1),
     # variants expected to be refused
     ('Vector.setitem-int-oob', '{x}[5] = 1', 'setitem', 0),
-    ('Vector.setitem-slice-badlen', '{x}[0:2] = [1]', 'setitem', 0),
+    ('Vector.setitem-slice-badlen', '{x}[0:2] = @SBAD@', 'setitem', 0),
     ('Vector.setitem-str', "{x}[0] = 's'", 'setitem', 0),
-    ('Vector.setitem-slice-mixed-bad', "{x}[0:2] = [1.5, 's']", 'setitem', 0),
+    ('Vector.setitem-slice-mixed-bad', "{x}[0:2] = @SMIX@", 'setitem', 0),
 ]
 T_DERIVE = [
     ('Table.copy', '{x}.copy()', 'T', 0),
     ('Table.getitem-slice', '{x}[0:2]', 'T', 1),
-    ('Table.getitem-mask', '{x}[[True, False, True]]', 'T', 1),
+    ('Table.getitem-mask', '{x}[@MASK@]', 'T', 1),
     ('Table.getitem-select', "{x}['b', 'a']", 'T', 1),
     ('Table.getitem-rows-col', "{x}[0:2, 'a']", 'V', 0),
     ('Table.getitem-region', '{x}[0:2, 0:2]', 'T', 0),
-    ('Table.getitem-indexvec', '{x}[Vector([0, 2])]', 'T', 0),
+    ('Table.getitem-indexvec', '{x}[Vector(@IDX@)]', 'T', 0),
     ('Table.getitem-name', "{x}['a']", 'V', 0),          # live column handle
     ('Table.getattr', '{x}.b', 'V', 1),                  # live column handle
     ('Table.rshift-vector', '{x} >> {w}', 'T', 1),
     ('Table.rshift-dict-vector', "{x} >> {{'c': {w}}}", 'T', 1),
-    ('Table.rshift-dict-list', "{x} >> {{'c': [7, 8, 9]}}", 'T', 0),
-    ('Table.rshift-list', '{x} >> [7, 8, 9]', 'T', 0),
-    ('Table.rshift-list-short', '{x} >> [7, 8]', 'T', 0),       # unequal lengths: not a table
+    ('Table.rshift-dict-list', "{x} >> {{'c': @COL@}}", 'T', 0),
+    ('Table.rshift-list', '{x} >> @COL@', 'T', 0),
+    ('Table.rshift-list-short', '{x} >> @COLBAD@', 'T', 0),       # unequal lengths: not a table
     ('Table.rshift-table', '{x} >> {u}', 'T', 0),
     ('Table.lshift-row', '{x} << [7, 8]', 'T', 1),
     ('Table.lshift-table', '{x} << {u}', 'T', 0),
@@ -111,6 +154,18 @@ T_DERIVE = [
     ('Table.eq-scalar', '{x} == 1', 'T', 0),
     ('Table.aggregate', "{x}.aggregate(over='a', sum_over='b')", 'T', 0),
     ('Table.window', "{x}.window(over='a', sum_over='b')", 'T', 0),
+    # derivations that could hand back the operand itself / its column objects
+    ('Table.getitem-slice-full', '{x}[:]', 'T', 0),
+    ('Table.getitem-mask-all', '{x}[@MASKALL@]', 'T', 0),
+    ('Table.getitem-select-all', "{x}['a', 'b']", 'T', 0),
+    ('Table.sort_by-asc', "{x}.sort_by('a')", 'T', 0),
+    ('Table.rshift-dict-empty', '{x} >> {{}}', 'T', 0),
+    ('Table.lshift-table-empty', '{x} << {x}[0:0]', 'T', 0),
+    # dict form of >> whose value is a vector under ANOTHER name / a column of another (or the same) table
+    ('Table.rshift-dict-vector-renamed', "{x} >> {{'z': {w}}}", 'T', 0),
+    ('Table.rshift-dict-column', "{x} >> {{'z': {u}.b}}", 'T', 0),
+    ('Table.rshift-dict-two', "{x} >> {{'p': {w}, 'q': {u}.a}}", 'T', 0),
+    ('Table.rshift-column', '{x} >> {u}.b', 'T', 0),
     # variants expected to be refused
     ('Table.lshift-row-badlen', '{x} << [1]', 'T', 0),
     ('Table.inner_join-badkey', "{x}.inner_join({u}, 'nope', 'a')", 'T', 0),
@@ -129,27 +184,28 @@ T_WRITE = [
     ('Table.setitem-cell-promote', '{x}[0, 1] = 1.5', 'promote', 0),
     ('Table.setitem-row', '{x}[0, :] = [70, 80]', 'table-setitem', 0),
     ('Table.setitem-row-plain', '{x}[1] = [70, 80]', 'table-setitem', 0),
-    ('Table.setitem-column', "{x}[:, 'a'] = [7, 8, 9]", 'table-setitem', 0),
-    ('Table.setitem-region', "{x}[0:2, 0:2] = Table({{'p': [0, 0], 'q': [1, 1]}})", 'table-setitem', 0),
+    ('Table.setitem-column', "{x}[:, 'a'] = @COL@", 'table-setitem', 0),
+    ('Table.setitem-region', "{x}[0:2, 0:2] = @REG@", 'table-setitem', 0),
     ('Table.setitem-region-table', '{x}[0:3, 0:2] = {u}', 'table-setitem', 0),
     ('Table.view-setitem', '{x}.a[0] = 100', 'view-setitem', 1),
     ('Table.view-setitem-name', "{x}['b'][0] = 100", 'view-setitem', 0),
     ('Table.setattr-vector', '{x}.a = {w}', 'setattr', 1),
-    ('Table.setattr-list', '{x}.a = [7, 8, 9]', 'setattr', 0),
+    ('Table.setattr-list', '{x}.a = @COL@', 'setattr', 0),
     ('Table.setattr-indexed-vector', '{x}.a__0 = {w}', 'setattr', 1),
-    ('Table.setattr-indexed-list', '{x}.b__1 = [7, 8, 9]', 'setattr', 0),
+    ('Table.setattr-indexed-list', '{x}.b__1 = @COL@', 'setattr', 0),
     ('Table.rename_column', "{x}.rename_column('a', 'z')", 'rename', 1),
     ('Table.view-name-set', "{x}.b.name = 'z'", 'rename', 0),
     # variants expected to be refused
-    ('Table.setattr-list-badlen', '{x}.a = [1]', 'setattr', 0),
-    ('Table.setattr-vector-badlen', '{x}.a = {w}[0:2]', 'setattr', 0),
-    ('Table.setattr-missing', '{x}.zzz = [7, 8, 9]', 'setattr', 0),
+    ('Table.setattr-list-badlen', '{x}.a = @BADCOL@', 'setattr', 0),
+    ('Table.setattr-vector-badlen', '{x}.a = @WBAD@', 'setattr', 0),
+    ('Table.setattr-missing', '{x}.zzz = @COL@', 'setattr', 0),
     ('Table.setitem-cell-oob', '{x}[9, 0] = 1', 'table-setitem', 0),
     ('Table.setitem-row-badlen', '{x}[0, :] = [1]', 'table-setitem', 0),
     ('Table.setitem-row-mixed-bad', "{x}[0, :] = [1, 's']", 'table-setitem', 0),
 ]
 # ops whose {w} ranges over EVERY other live vector (donor position matters); the rest take one w
-ALL_W = {'Table.rshift-vector', 'Table.rshift-dict-vector', 'Table.setattr-vector', 'Table.setattr-indexed-vector'}
+ALL_W = {'Table.rshift-vector', 'Table.rshift-dict-vector', 'Table.setattr-vector', 'Table.setattr-indexed-vector',
+         'Table.rshift-dict-vector-renamed'}
 # attribute assignment replaces that column: handles of the old column stop belonging to the table
 DETACH = {'Table.setattr-vector': 'a', 'Table.setattr-list': 'a', 'Table.setattr-indexed-vector': 'a',
           'Table.setattr-indexed-list': 'b'}
@@ -158,19 +214,35 @@ DETACH = {'Table.setattr-vector': 'a', 'Table.setattr-list': 'a', 'Table.setattr
 # near-duplicates of other alphabet entries: exercised in single-step histories and in the thorough tier only
 LIGHT = {'Vector.T', 'Vector.cast', 'Vector.fillna', 'Vector.getitem-slice-full', 'Vector.setitem-negint',
          'Table.join', 'Table.full_join', 'Table.window', 'Table.setitem-cell-name',
-         'Table.view-setitem-name', 'Table.setitem-row-plain', 'Table.getitem-indexvec', 'Vector.getitem-index'}
+         'Table.view-setitem-name', 'Table.setitem-row-plain', 'Table.getitem-indexvec', 'Vector.getitem-index',
+         'Vector.sort_by-asc', 'Vector.lshift-empty', 'Vector.cast-same', 'Vector.getitem-mask-all', 'Vector.getitem-slice-over',
+         'Vector.add-zero', 'Vector.pos', 'Vector.dropna', 'Table.getitem-slice-full', 'Table.getitem-mask-all',
+         'Table.getitem-select-all', 'Table.sort_by-asc', 'Table.rshift-dict-empty', 'Table.lshift-table-empty',
+         'Table.rshift-dict-vector-renamed', 'Table.rshift-dict-column', 'Table.rshift-dict-two', 'Table.rshift-column'}
+# the no-op derivations and dict->> variants added for the identity check ('nonew' alphabet = everything but these)
+NEW_OPS = {'Vector.sort_by-asc', 'Vector.lshift-empty', 'Vector.cast-same', 'Vector.getitem-mask-all', 'Vector.getitem-slice-over',
+           'Vector.add-zero', 'Vector.pos', 'Vector.dropna', 'Table.getitem-slice-full', 'Table.getitem-mask-all',
+           'Table.getitem-select-all', 'Table.sort_by-asc', 'Table.rshift-dict-empty', 'Table.lshift-table-empty',
+           'Table.rshift-dict-vector-renamed', 'Table.rshift-dict-column', 'Table.rshift-dict-two', 'Table.rshift-column'}
+# second step of the directed family besides the core writes: the dict form of >> (value = vector / column of a table)
+SECOND_DERIVE = {'Table.rshift-dict-vector', 'Table.rshift-dict-vector-renamed', 'Table.rshift-dict-column'}
 
 
-def _steps(env, k, last, core, vec_targets):
-    """All steps available in abstract environment env ({name: 'V'|'T'}) as step number k."""
+def _steps(env, k, last, core, vec_targets, n=3, sel=None):
+    """All steps available in abstract environment env ({name: 'V'|'T'}) as step number k.
+    n: length of the roots; sel(op, cls, x, c): optional filter (c = core flag of the op)."""
     R = f'r{k}'
-    vs = [n for n, kd in env.items() if kd == 'V']
-    ts = [n for n, kd in env.items() if kd == 'T']
+    vs = [n_ for n_, kd in env.items() if kd == 'V']
+    ts = [n_ for n_, kd in env.items() if kd == 'T']
     out = []
+    wbad = _tokens(n)['@WBAD@']
 
     def emit(op, tmpl, x, res, cls, extra_kind):
         if core == 'nolight' and op in LIGHT:
             return
+        if core == 'nonew' and op in NEW_OPS:
+            return
+        tmpl = tmpl.replace('@WBAD@', wbad)
         if '{w}' in tmpl:
             ws = [w for w in vs if w != x]
             if op not in ALL_W and ws:
@@ -180,7 +252,7 @@ def _steps(env, k, last, core, vec_targets):
         us = ts if '{u}' in tmpl else [None]
         for w in ws:
             for u in us:
-                src = tmpl.format(x=x, w=w, u=u)
+                src = _sized(tmpl.format(x=x, w=w, u=u), n)
                 operands = [x] + [o for o in (w, u) if o is not None and o != x]
                 st = {'op': op, 'src': (f'{R} = {src}' if res else src), 'tgt': x, 'operands': operands,
                       'cls': cls}
@@ -193,20 +265,20 @@ def _steps(env, k, last, core, vec_targets):
         if vec_targets is not None and x in ('v0', 'v1', 'v2') and x not in vec_targets:
             continue
         for op, tmpl, res, c in V_DERIVE:
-            if c or core in (False, 'nolight'):
+            if (c or core in (False, 'nolight', 'nonew')) and (sel is None or sel(op, 'derive', x, c)):
                 emit(op, tmpl, x, res, 'derive', None)
         for op, tmpl, cls, c in V_WRITE:
-            if c or core in (False, 'nolight'):
+            if (c or core in (False, 'nolight', 'nonew')) and (sel is None or sel(op, cls, x, c)):
                 emit(op, tmpl, x, None, cls, None)
         if last:
             for op, tmpl in V_READ:
                 emit(op, tmpl, x, None, 'read', None)
     for x in ts:
         for op, tmpl, res, c in T_DERIVE:
-            if c or core in (False, 'nolight'):
+            if (c or core in (False, 'nolight', 'nonew')) and (sel is None or sel(op, 'derive', x, c)):
                 emit(op, tmpl, x, res, 'derive', None)
         for op, tmpl, cls, c in T_WRITE:
-            if c or core in (False, 'nolight'):
+            if (c or core in (False, 'nolight', 'nonew')) and (sel is None or sel(op, cls, x, c)):
                 emit(op, tmpl, x, None, cls, None)
         if last:
             for op, tmpl in T_READ:
@@ -214,13 +286,13 @@ def _steps(env, k, last, core, vec_targets):
     return out
 
 
-def _histories(n, core, vec_targets, reads=True):
+def _histories(n, core, vec_targets, reads=True, size=3):
     """All histories of exactly n steps (plain reads only in last position: they are pure observers)."""
     base = {'v0': 'V', 'v1': 'V', 'v2': 'V', 't0': 'T'}
 
     def rec(env, k, prefix):
         last = (k == n)
-        for st in _steps(env, k, last and reads, core, vec_targets):
+        for st in _steps(env, k, last and reads, core, vec_targets, size):
             if last:
                 yield prefix + [st]
             else:
@@ -232,18 +304,54 @@ def _histories(n, core, vec_targets, reads=True):
     yield from rec(base, 1, [])
 
 
+def _directed(size, only_light):
+    """Every derivation, then every core write (and the dict form of >>) through the result or one of the operands."""
+    base = {'v0': 'V', 'v1': 'V', 'v2': 'V', 't0': 'T'}
+    first = _steps(base, 1, False, False, None, size,
+                   sel=lambda op, cls, x, c: cls == 'derive' and (not only_light or op in LIGHT))
+    for st in first:
+        env2 = dict(base)
+        env2[st['res']] = st['kind']
+        near = set(st['operands']) | {st['res']}
+        for st2 in _steps(env2, 2, False, False, None, size,
+                          sel=lambda op, cls, x, c: x in near and ((cls != 'derive' and c) or op in SECOND_DERIVE)):
+            yield [st, st2]
+
+
+# setups that exist for roots of length 0 (`Vector([]) >> Vector([])` itself raises: the untyped empty vector has no dtype)
+SETUPS_0 = ['ctor-list', 'ctor-tuple', 'vector-nested', 'dict-of-lists']
+
+
 def cases(tier, seed):
     if tier == 'quick':
         plan = [(1, False, None, list(SETUPS), True),
                 (2, 'nolight', ('v0', 'v2'), ['rshift', 'ctor-list'], False)]
     else:
         plan = [(1, False, None, list(SETUPS), True),
-                (2, False, None, [k for k in SETUPS if k != 'ctor-tuple'], True),
+                (2, False, None, ['rshift', 'ctor-list'], True),
+                (2, 'nonew', None, ['vector-nested', 'dict-of-lists'], True),
                 (3, True, ('v0', 'v2'), ['rshift', 'ctor-list'], False)]
     for n, core, vt, setups, reads in plan:
         for h in _histories(n, core, vt, reads):
             for s in setups:
                 yield {'setup': s, 'hist': h}
+    # roots of length 1 and 0
+    if tier == 'quick':
+        small = [(1, False, None, {1: list(SETUPS), 0: SETUPS_0}, True),
+                 (2, True, None, {1: ['rshift'], 0: ['ctor-list']}, False)]
+    else:
+        small = [(1, False, None, {1: list(SETUPS), 0: SETUPS_0}, True),
+                 (2, False, None, {1: ['rshift'], 0: ['ctor-list']}, True)]
+    for n, core, vt, setups, reads in small:
+        for size in (1, 0):
+            for h in _histories(n, core, vt, reads, size):
+                for s in setups[size]:
+                    yield {'setup': s, 'hist': h, 'n': size}
+    # directed family: derivation, then a write / dict->> through the result or an operand
+    for size, s in ((3, 'rshift'), (1, 'rshift'), (0, 'ctor-list')):
+        for h in _directed(size, only_light=(size == 3 and tier == 'quick')):
+            yield ({'setup': s, 'hist': h, 'n': size, 'fam': 'directed'} if size != 3 else
+                   {'setup': s, 'hist': h, 'fam': 'directed'})
 
 
 # --------------------------------------------------------------------------------------------
@@ -290,7 +398,7 @@ def obs(x):
             rows = tuple([tuple(map(repr, r)) for r in x])
         except Exception as e:
             rows = ('ERR', type(e).__name__)
-        return (tuple([obs(c) for c in x.cols()]), len(x), names, rows)
+        return (tuple([obs(c) for c in x.cols()]), len(x), names, rows, x._name)
     if isinstance(x, Vector):
         dt = x.schema()
         try:
@@ -351,9 +459,10 @@ def _really_shared(env, tgt):
 def evaluate(case):
     fails = []
     env = {}
+    size = case.get('n', 3)
     try:
-        exec(_compiled(ROOTS), _G, env)
-        exec(_compiled(SETUPS[case['setup']]), _G, env)
+        exec(_compiled(_sized(ROOTS, size)), _G, env)
+        exec(_compiled(_sized(SETUPS[case['setup']], size)), _G, env)
     except Exception as e:
         return [Fail('C01:setup:' + case['setup'] + ':raised', f'setup raised {type(e).__name__}: {e}')]
     graph = {}
@@ -404,6 +513,20 @@ def evaluate(case):
         elif len(st['operands']) > 1:
             for o in st['operands'][1:]:
                 _link(graph, tgt, o, op)
+        # identity: a derivation never hands back an operand, nor a table standing on an operand's column objects
+        if res is not None and res not in nested and op not in VIEW_COL:
+            r_obj = env[res]
+            r_cols = {id(c) for c in _leaves(r_obj)} if isinstance(r_obj, Table) else set()
+            for o in st['operands']:
+                o_obj = env[o]
+                if r_obj is o_obj:
+                    fails.append(Fail(f'C01:{op}:result-is-operand',
+                                      f'{hist}  returns its operand {o} itself (`{res} is {o}`): a later write through either '
+                                      f'handle shows through the other', f'{res} is not {o}', f'{res} is {o}'))
+                elif r_cols and any(id(c) in r_cols for c in _leaves(o_obj)):
+                    fails.append(Fail(f'C01:{op}:result-shares-column-object',
+                                      f'{hist}  returns a table holding the very column object(s) of its operand {o}: a later '
+                                      f'write or rename through either handle shows through the other', 'fresh column objects', 'shared'))
         # operands, the tables their column handles belong to, and the column handles of operand tables
         opgroup = set(st['operands'])
         for o in st['operands']:
@@ -477,7 +600,7 @@ def evaluate(case):
 def nontrivial(case):
     h = case['hist']
     if any(st['cls'] not in ('derive', 'read') for st in h):
-        return (case['setup'],) + tuple(st['op'] for st in h)
+        return (case['setup'], case.get('n', 3)) + tuple(st['op'] for st in h)
     return None
 
 
@@ -488,9 +611,20 @@ if __name__ == '__main__':
               'joins/sort/T/math/aggregate/window), 14 vector write forms, 22 table write forms (cell/row/column/region/'
               'live column handle/attribute and indexed-attribute assignment/rename, incl. refused variants), pure reads in '
               'last position; after every step every live object is compared with its pre-step snapshot under the frame rule '
-              'of the statement. distinct = distinct (setup, op-name sequence) containing a write',
-         bound=lambda tier: ({'max_steps': 2, 'len1_setups': 5, 'len2_setups': 2, 'len2_vector_targets': 'v0,v2+derived', 'len2_reads': False, 'len2_alphabet': 'minus 13 near-duplicate ops'}
+              'of the statement (table name and column names included). Also: the same 1-step histories on roots of length 1 '
+              'and 0 and core 2-step histories there; 18 more derivations that could return the operand itself (ascending / no-op sort, '
+              '<< [], cast to the same kind, all-true mask, [:], [0:100], +0, unary +, dropna, select of all columns, >> {}, << of zero rows) '
+              'and the dict form of >> with a vector under another name / a column of another or the same table; identity check '
+              'after every derivation (result is not an operand and holds none of its column objects); directed family = every '
+              'derivation then every core write or dict->> through the result or an operand, for root lengths 3, 1, 0. '
+              'distinct = distinct (setup, root length, op-name sequence) containing a write',
+         bound=lambda tier: ({'max_steps': 2, 'len1_setups': 5, 'len2_setups': 2, 'len2_vector_targets': 'v0,v2+derived', 'len2_reads': False, 'len2_alphabet': 'minus 13 near-duplicate and 18 new no-op-derivation ops (those: 1-step + directed family)',
+                              'root_lengths': '3; 1 and 0: 1-step full alphabet on all setups + 2-step core alphabet on one setup',
+                              'directed_family': 'lengths 3 (light ops), 1, 0 (all derivations) x core writes through result/operands'}
                              if tier == 'quick' else
                              {'max_steps': 3, 'len1_setups': 5, 'len2_setups': 4, 'len3_setups': 2,
-                              'len3_alphabet': 'core subset (21 ops)'}),
+                              'len3_alphabet': 'core subset (21 ops)',
+                              'len2_new_noop_derivations': 'on 2 of the 4 setups',
+                              'root_lengths': '3; 1 and 0: 1-step on all setups, 2-step full alphabet on 1 setup each',
+                              'directed_family': 'lengths 3, 1, 0, all derivations'}),
          nontrivial=nontrivial)
